@@ -63,6 +63,12 @@ type vsubCfg struct {
 	// HdrGetterBlocks: the header getter used inside a retrieval is a blocking, failing
 	// collaborator too (answers ok/fail), not only the share getter.
 	HdrGetterBlocks bool `json:"hdr_getter_blocks"`
+	// SameNS: every subscription is on namespace 0, so retrievals of the same (height, namespace)
+	// overlap whenever two subscriptions hold the same header
+	SameNS bool `json:"same_ns"`
+	// GetAlls: how many times Service.GetAll(height, namespace 0) may be started concurrently with
+	// subscription 0, for the height subscription 0 is retrieving (or will retrieve next)
+	GetAlls int `json:"getalls"`
 	// event switches
 	Cancel  bool `json:"cancel"`
 	Stop    bool `json:"stop"`
@@ -72,8 +78,8 @@ type vsubCfg struct {
 }
 
 func (c vsubCfg) String() string {
-	return fmt.Sprintf("%s: feed=%s subs=%d prefill=%d headers=%d answers=%s hdrgetter-blocks=%v cancel=%v stop=%v fclose=%v hdrstop=%v depth<=%d",
-		c.Name, c.feedName(), c.Subs, c.Prefill, c.Headers, strings.Join(c.Answers, "/"), c.HdrGetterBlocks, c.Cancel, c.Stop, c.FClose, c.HdrStop, c.Depth)
+	return fmt.Sprintf("%s: feed=%s same-ns=%v getalls=%d subs=%d prefill=%d headers=%d answers=%s hdrgetter-blocks=%v cancel=%v stop=%v fclose=%v hdrstop=%v depth<=%d",
+		c.Name, c.feedName(), c.SameNS, c.GetAlls, c.Subs, c.Prefill, c.Headers, strings.Join(c.Answers, "/"), c.HdrGetterBlocks, c.Cancel, c.Stop, c.FClose, c.HdrStop, c.Depth)
 }
 
 func (c vsubCfg) feedName() string {
@@ -81,6 +87,14 @@ func (c vsubCfg) feedName() string {
 		return "consecutive"
 	}
 	return c.Feed
+}
+
+// nsOf is the index of the namespace subscription i is on.
+func (c vsubCfg) nsOf(i int) int {
+	if c.SameNS {
+		return 0
+	}
+	return i
 }
 
 // feedHeights lists the heights the feed carries, in order.
@@ -221,6 +235,8 @@ func vsubCopyND(nd shwap.NamespaceData) shwap.NamespaceData {
 
 type vsubKey struct{}
 
+const vsubGAIdx = 100 // caller id of the concurrent Service.GetAll
+
 type vsubAns struct {
 	nd  shwap.NamespaceData
 	hdr *header.ExtendedHeader
@@ -229,7 +245,8 @@ type vsubAns struct {
 
 type vsubCall struct {
 	kind   string // "nd" share getter, "hg" header getter
-	sub    int
+	sub    int    // calling subscription, or vsubGAIdx for the concurrent GetAll
+	nsi    int    // namespace index
 	height uint64
 	ctx    context.Context
 	ans    chan vsubAns
@@ -252,16 +269,23 @@ func (g vsubGetter) GetRangeNamespaceData(context.Context, *header.ExtendedHeade
 }
 
 func (g vsubGetter) GetNamespaceData(ctx context.Context, h *header.ExtendedHeader, ns libshare.Namespace) (shwap.NamespaceData, error) {
-	sub := -1
+	nsi := -1
 	for i, n := range g.s.chain.ns[:2] {
 		if n.Equals(ns) {
-			sub = i
+			nsi = i
 		}
 	}
-	if v, ok := ctx.Value(vsubKey{}).(int); ok && sub < 0 {
+	sub := -1
+	if v, ok := ctx.Value(vsubKey{}).(int); ok {
 		sub = v
+	} else if !g.s.cfg.SameNS {
+		sub = nsi
 	}
-	a := g.s.block(&vsubCall{kind: "nd", sub: sub, height: h.Height(), ctx: ctx, ans: make(chan vsubAns)})
+	if nsi < 0 {
+		g.s.fail("harness: share getter asked for an unknown namespace")
+		return nil, errors.New("verif: unknown namespace")
+	}
+	a := g.s.block(&vsubCall{kind: "nd", sub: sub, nsi: nsi, height: h.Height(), ctx: ctx, ans: make(chan vsubAns)})
 	return a.nd, a.err
 }
 
@@ -274,13 +298,31 @@ func (s *vsubSys) headerGetter(ctx context.Context, height uint64) (*header.Exte
 		return s.chain.blocks[height-1].hdr, nil
 	}
 	sub, _ := ctx.Value(vsubKey{}).(int)
-	a := s.block(&vsubCall{kind: "hg", sub: sub, height: height, ctx: ctx, ans: make(chan vsubAns)})
+	nsi := 0
+	if sub != vsubGAIdx {
+		nsi = s.cfg.nsOf(sub)
+	}
+	a := s.block(&vsubCall{kind: "hg", sub: sub, nsi: nsi, height: height, ctx: ctx, ans: make(chan vsubAns)})
 	return a.hdr, a.err
 }
 
 // block registers a collaborator call and parks the caller until the explorer answers it.
 func (s *vsubSys) block(c *vsubCall) vsubAns {
 	s.mu.Lock()
+	if c.sub == vsubGAIdx {
+		ga := &s.ga
+		switch {
+		case !ga.running:
+			s.failLocked("harness: GetAll collaborator call while no GetAll runs")
+		case ga.pending != nil:
+			s.failLocked("harness: GetAll has two collaborator calls in flight")
+		case int(c.height) != ga.height || c.nsi != 0:
+			s.failLocked("C20/getall/retrieval-of-wrong-height: GetAll(%d) retrieves height %d namespace %d", ga.height, c.height, c.nsi)
+		}
+		ga.pending = c
+		s.mu.Unlock()
+		return <-c.ans
+	}
 	if c.sub < 0 || c.sub >= len(s.subs) {
 		s.failLocked("harness: collaborator call for unknown subscription (%s height %d)", c.kind, c.height)
 		s.mu.Unlock()
@@ -297,6 +339,9 @@ func (s *vsubSys) block(c *vsubCall) vsubAns {
 		if s.stopped || sb.cancelled {
 			sb.late++
 		}
+	}
+	if c.nsi != s.cfg.nsOf(c.sub) {
+		s.failLocked("C20/retrieval-of-wrong-namespace: subscription %d retrieves namespace %d", c.sub, c.nsi)
 	}
 	if sb.taken == 0 || int(c.height) != s.feed[sb.taken-1] {
 		s.failLocked("C20/retrieval-of-wrong-height: subscription %d retrieves height %d, which is not the header it took last (#%d of the feed)", c.sub, c.height, sb.taken)
@@ -321,7 +366,6 @@ type vsubSub struct {
 	overflowed bool // a header arrived while 16 responses were unread
 	closed     bool // the consumer has seen the channel closed
 	attempts   int
-	failed     map[int]string // height -> kinds of failure answers its retrieval got
 	late       int // retrieval attempts started after cancel / service stop
 	pending    *vsubCall
 }
@@ -344,6 +388,24 @@ func (sb *vsubSub) cause(stopped bool) string {
 	return "none"
 }
 
+// vsubGA is the Service.GetAll call running concurrently with the subscriptions.
+type vsubGA struct {
+	started int
+	running bool
+	height  int
+	cancel  context.CancelFunc
+	pending *vsubCall
+	done    chan vsubGARes
+	failed  string // failure answers given, while it runs, to any retrieval of its (height, namespace)
+	okN     int    // results accepted
+	errN    int    // errors accepted (a failure answer had been given)
+}
+
+type vsubGARes struct {
+	blobs []*Blob
+	err   error
+}
+
 type vsubSys struct {
 	cfg   vsubCfg
 	chain *vsubChain
@@ -352,11 +414,14 @@ type vsubSys struct {
 
 	mu      sync.Mutex
 	subs    []*vsubSub
+	ga      vsubGA
+	failed  map[int]string // namespace*1000+height -> kinds of failure answers given to retrievals of it
 	stopped bool
 	err     error
 
 	// set by Check (the non-perturbing part of an observation)
 	snap        string
+	snapOverlap bool // two retrievals of the same (height, namespace) were in flight / joined in the snapshot
 	enabledSnap []string
 	probed      bool
 	trace       bool
@@ -365,6 +430,8 @@ type vsubSys struct {
 // statistics shared by all instances of a run
 type vsubStats struct {
 	readsOK       atomic.Int64 // positive control: responses accepted by the oracle
+	getAllsOK     atomic.Int64 // positive control: concurrent GetAll results accepted
+	overlaps      atomic.Int64 // distinct states with two retrievals of the same (height, namespace) in flight or joined
 	drainsDone    atomic.Int64 // positive control: fair continuation delivered every header
 	mu            sync.Mutex
 	outcomes      map[string]int64 // stream outcome of every distinct state
@@ -388,7 +455,7 @@ func (s *vsubSys) fail(format string, a ...any) {
 func (s *vsubSys) total() int { return s.cfg.Prefill + s.cfg.Headers }
 
 func newVsubSys(cfg vsubCfg, chain *vsubChain) *vsubSys {
-	s := &vsubSys{cfg: cfg, chain: chain, feed: cfg.feedHeights()}
+	s := &vsubSys{cfg: cfg, chain: chain, feed: cfg.feedHeights(), failed: map[int]string{}}
 	feeds := make(chan chan *header.ExtendedHeader, cfg.Subs)
 	headerSub := func(ctx context.Context) (<-chan *header.ExtendedHeader, error) {
 		f := make(chan *header.ExtendedHeader) // unbuffered, like nodebuilder/header.Service.Subscribe
@@ -404,7 +471,7 @@ func newVsubSys(cfg vsubCfg, chain *vsubChain) *vsubSys {
 		ctx, cancel := context.WithCancel(context.WithValue(context.Background(), vsubKey{}, i))
 		sb := &vsubSub{idx: i, ctx: ctx, cancel: cancel}
 		s.subs = append(s.subs, sb)
-		ch, err := s.svc.Subscribe(ctx, chain.ns[i])
+		ch, err := s.svc.Subscribe(ctx, chain.ns[cfg.nsOf(i)])
 		if err != nil {
 			s.fail("harness: Subscribe: %v", err)
 			return s
@@ -440,7 +507,62 @@ func (s *vsubSys) applyQuiet(ev string) {
 }
 
 func (s *vsubSys) hdrEnabled(sb *vsubSub) bool {
-	return !sb.terminated(s.stopped) && sb.pending == nil && sb.taken < s.total() && sb.taken < len(s.feed)
+	return !sb.terminated(s.stopped) && !s.busy(sb) && sb.taken < s.total() && sb.taken < len(s.feed)
+}
+
+// joined: the subscription owes a response for its last header, has no collaborator call of its
+// own in flight, but another retrieval of the same (height, namespace) is in flight - an
+// implementation that coalesces identical retrievals may legitimately be waiting for that one.
+func (s *vsubSys) joined(sb *vsubSub) bool {
+	if sb.pending != nil || sb.taken == 0 || sb.overflowed || sb.readN+len(sb.ch) >= sb.taken {
+		return false
+	}
+	h, nsi := s.feed[sb.taken-1], s.cfg.nsOf(sb.idx)
+	for _, o := range s.subs {
+		if o != sb && o.pending != nil && int(o.pending.height) == h && o.pending.nsi == nsi {
+			return true
+		}
+	}
+	return s.ga.pending != nil && s.ga.height == h && nsi == 0
+}
+
+// busy: a retrieval for the subscription's last header is (or may be) running.
+func (s *vsubSys) busy(sb *vsubSub) bool { return sb.pending != nil || s.joined(sb) }
+
+// gaTarget is the height a GetAll started now asks for: the height subscription 0 is retrieving,
+// else the height it will be handed next.
+func (s *vsubSys) gaTarget() int {
+	sb := s.subs[0]
+	if s.busy(sb) {
+		return s.feed[sb.taken-1]
+	}
+	if sb.taken < s.total() && sb.taken < len(s.feed) {
+		return s.feed[sb.taken]
+	}
+	return 0
+}
+
+// gaJoined: the GetAll has no collaborator call of its own but a subscription retrieves the same thing.
+func (s *vsubSys) gaJoined() bool {
+	if !s.ga.running || s.ga.pending != nil {
+		return false
+	}
+	for _, o := range s.subs {
+		if o.pending != nil && int(o.pending.height) == s.ga.height && o.pending.nsi == 0 {
+			return true
+		}
+	}
+	return false
+}
+
+func (s *vsubSys) noteFailure(c *vsubCall, kind string) {
+	k := c.nsi*1000 + int(c.height)
+	if !strings.Contains(s.failed[k], kind) {
+		s.failed[k] += kind + " "
+	}
+	if s.ga.running && c.nsi == 0 && int(c.height) == s.ga.height && !strings.Contains(s.ga.failed, kind) {
+		s.ga.failed += kind + " "
+	}
 }
 
 func (s *vsubSys) Enabled() []string {
@@ -493,6 +615,16 @@ func (s *vsubSys) enabledNow() []string {
 	if s.cfg.Stop && !s.stopped && live {
 		ev = append(ev, "stop")
 	}
+	if s.ga.pending != nil {
+		for _, a := range s.cfg.Answers {
+			if a != "nf" { // GetAll's own not-found answer is the known finding, see KNOWN_FINDINGS.txt
+				ev = append(ev, "gans:"+a)
+			}
+		}
+	}
+	if !s.ga.running && s.ga.started < s.cfg.GetAlls && live && s.gaTarget() > 0 {
+		ev = append(ev, "gastart")
+	}
 	return ev
 }
 
@@ -503,7 +635,7 @@ func (s *vsubSys) Apply(ev string) error {
 	s.snap = ""
 	parts := strings.Split(ev, ":")
 	var sb *vsubSub
-	if len(parts) > 1 {
+	if len(parts) > 1 && parts[0] != "gans" {
 		i, err := strconv.Atoi(parts[1])
 		if err != nil || i < 0 || i >= len(s.subs) {
 			return fmt.Errorf("harness: bad event %q", ev)
@@ -543,34 +675,41 @@ func (s *vsubSys) Apply(ev string) error {
 		if c == nil {
 			return fmt.Errorf("harness: no pending call for %q", ev)
 		}
-		var a vsubAns
-		if parts[2] != "ok" {
-			if sb.failed == nil {
-				sb.failed = map[int]string{}
-			}
-			if !strings.Contains(sb.failed[int(c.height)], parts[2]) {
-				sb.failed[int(c.height)] += parts[2] + " "
-			}
-		}
-		switch parts[2] {
-		case "ok":
-			if c.kind == "hg" {
-				a.hdr = s.chain.blocks[c.height-1].hdr
-			} else {
-				a.nd = vsubCopyND(s.chain.blocks[c.height-1].nd[c.sub])
-			}
-		case "fail":
-			a.err = errors.New("verif: transient retrieval failure")
-		case "nf":
-			// the block's data could not be found by the getter (what the store getter and the
-			// shrex getter report while nobody asked has the block)
-			a.err = fmt.Errorf("verif: nobody has the block yet: %w", shwap.ErrNotFound)
-		case "ctx":
-			a.err = c.ctx.Err()
-		default:
-			return fmt.Errorf("harness: bad answer %q", ev)
+		a, err := s.answerFor(c, parts[2])
+		if err != nil {
+			return err
 		}
 		c.ans <- a
+	case "gans":
+		s.mu.Lock()
+		c := s.ga.pending
+		s.ga.pending = nil
+		s.mu.Unlock()
+		if c == nil {
+			return fmt.Errorf("harness: no pending GetAll call for %q", ev)
+		}
+		a, err := s.answerFor(c, parts[1])
+		if err != nil {
+			return err
+		}
+		c.ans <- a
+	case "gastart":
+		s.mu.Lock()
+		h := s.gaTarget()
+		if h == 0 || s.ga.running {
+			s.mu.Unlock()
+			return fmt.Errorf("harness: gastart not possible")
+		}
+		ctx, cancel := context.WithCancel(context.WithValue(context.Background(), vsubKey{}, vsubGAIdx))
+		s.ga.started++
+		s.ga.running, s.ga.height, s.ga.cancel, s.ga.failed = true, h, cancel, ""
+		s.ga.done = make(chan vsubGARes, 1)
+		done := s.ga.done
+		s.mu.Unlock()
+		go func() {
+			blobs, err := s.svc.GetAll(ctx, uint64(h), []libshare.Namespace{s.chain.ns[0]})
+			done <- vsubGARes{blobs, err}
+		}()
 	case "read":
 		if len(sb.ch) == 0 {
 			return fmt.Errorf("harness: read with empty buffer")
@@ -595,11 +734,103 @@ func (s *vsubSys) Apply(ev string) error {
 		return fmt.Errorf("harness: unknown event %q", ev)
 	}
 	synctest.Wait()
+	s.collectGetAll()
 	s.judge()
 	if s.trace {
 		fmt.Printf("REPLAY-STEP %-12s -> %s\n", ev, s.snapshot())
 	}
 	return s.err
+}
+
+func (s *vsubSys) answerFor(c *vsubCall, kind string) (a vsubAns, err error) {
+	if kind != "ok" {
+		s.mu.Lock()
+		s.noteFailure(c, kind)
+		s.mu.Unlock()
+	}
+	switch kind {
+	case "ok":
+		if c.kind == "hg" {
+			a.hdr = s.chain.blocks[c.height-1].hdr
+		} else {
+			a.nd = vsubCopyND(s.chain.blocks[c.height-1].nd[c.nsi])
+		}
+	case "fail":
+		a.err = errors.New("verif: transient retrieval failure")
+	case "nf":
+		// the block's data could not be found by the getter (what the store getter and the
+		// shrex getter report while nobody asked has the block)
+		a.err = fmt.Errorf("verif: nobody has the block yet: %w", shwap.ErrNotFound)
+	case "ctx":
+		a.err = c.ctx.Err()
+	default:
+		return a, fmt.Errorf("harness: bad answer %q", kind)
+	}
+	return a, nil
+}
+
+// vsubSameBlobs compares a result with the blobs the block was built from.
+func vsubSameBlobs(got, ref []*Blob) string {
+	if len(got) != len(ref) {
+		return fmt.Sprintf("carries %d blobs, the block holds %d in that namespace", len(got), len(ref))
+	}
+	for i, b := range got {
+		r := ref[i]
+		if b == nil || b.Blob == nil || !b.Namespace().Equals(r.Namespace()) || !bytes.Equal(b.Data(), r.Data()) ||
+			b.ShareVersion() != r.ShareVersion() || !bytes.Equal(b.Commitment, r.Commitment) {
+			return fmt.Sprintf("blob %d differs from the block's blob", i)
+		}
+	}
+	return ""
+}
+
+func vsubCause(f string) string {
+	switch {
+	case strings.Contains(f, "nf"):
+		return "after=getter-not-found-error"
+	case f != "":
+		return "after=getter-error"
+	}
+	return "no-failure"
+}
+
+// collectGetAll judges the concurrent GetAll once it has returned: without error it must carry
+// exactly the block's blobs of the namespace; an error is accepted only if a failure answer was
+// given to a retrieval of that (height, namespace) while it ran.
+func (s *vsubSys) collectGetAll() {
+	s.mu.Lock()
+	defer s.mu.Unlock()
+	ga := &s.ga
+	if !ga.running {
+		return
+	}
+	var r vsubGARes
+	select {
+	case r = <-ga.done:
+	default:
+		return
+	}
+	ga.running = false
+	ga.cancel()
+	if ga.pending != nil {
+		s.failLocked("harness: GetAll returned while its collaborator call is parked")
+		return
+	}
+	if r.err != nil {
+		if ga.failed == "" {
+			s.failLocked("C20/getall/error-without-failure: concurrent GetAll(height %d) failed although no retrieval of that height and namespace was answered with a failure: %v", ga.height, r.err)
+			return
+		}
+		ga.errN++
+		return
+	}
+	if d := vsubSameBlobs(r.blobs, s.chain.blocks[ga.height-1].ref[0]); d != "" {
+		s.failLocked("C20/getall/wrong-blobs/%s: concurrent GetAll(height %d) returned without error but %s (failure answers given meanwhile: %q)",
+			vsubCause(ga.failed), ga.height, d, ga.failed)
+		return
+	}
+	ga.okN++
+	vsubRunStats.getAllsOK.Add(1)
 }
 
 // readOne takes one response from the channel as the consumer and judges it: the k-th response
@@ -644,33 +875,16 @@ func (s *vsubSys) readOne(sb *vsubSub) {
 		s.fail("C20/wrong-header: subscription %d response for height %d carries a different header", sb.idx, want)
 		return
 	}
-	ref := blk.ref[sb.idx]
-	if len(resp.Blobs) != len(ref) {
-		s.fail("C20/wrong-blobs/%s: subscription %d response for height %d carries %d blobs, the block holds %d in that namespace (failure answers given to this height's retrieval: %q)",
-			s.blobsCause(sb, want), sb.idx, want, len(resp.Blobs), len(ref), sb.failed[want])
+	nsi := s.cfg.nsOf(sb.idx)
+	if d := vsubSameBlobs(resp.Blobs, blk.ref[nsi]); d != "" {
+		s.mu.Lock()
+		f := s.failed[nsi*1000+want]
+		s.mu.Unlock()
+		s.fail("C20/wrong-blobs/%s: subscription %d response for height %d %s (failure answers given to retrievals of this height and namespace: %q)",
+			vsubCause(f), sb.idx, want, d, f)
 		return
 	}
-	for i, b := range resp.Blobs {
-		r := ref[i]
-		if b == nil || b.Blob == nil || !b.Namespace().Equals(r.Namespace()) || !bytes.Equal(b.Data(), r.Data()) ||
-			b.ShareVersion() != r.ShareVersion() || !bytes.Equal(b.Commitment, r.Commitment) {
-			s.fail("C20/wrong-blobs/%s: subscription %d response for height %d blob %d differs from the block's blob", s.blobsCause(sb, want), sb.idx, want, i)
-			return
-		}
-	}
 	vsubRunStats.readsOK.Add(1)
-}
-
-// blobsCause names the mechanism behind a response with the wrong blobs: the kinds of failure
-// answers the retrieval of that height received before the response was emitted.
-func (s *vsubSys) blobsCause(sb *vsubSub, h int) string {
-	switch f := sb.failed[h]; {
-	case strings.Contains(f, "nf"):
-		return "after=getter-not-found-error"
-	case f != "":
-		return "after=getter-error"
-	}
-	return "no-failure"
 }
 
 // judge evaluates what can be judged without disturbing the subscription.
@@ -683,7 +897,7 @@ func (s *vsubSys) judge() {
 	for _, sb := range s.subs {
 		emitted := sb.readN + len(sb.ch)
 		inflight := 0
-		if sb.pending != nil {
+		if s.busy(sb) {
 			inflight = 1
 		}
 		due := sb.taken - inflight
@@ -720,6 +934,13 @@ func (s *vsubSys) snapshot() string {
 		}
 		fmt.Fprintf(&b, " | sub%d taken=%d read=%d buf=%d pending=%s cancelled=%v fclosed=%v overflow=%v late=%d",
 			sb.idx, sb.taken, sb.readN, len(sb.ch), p, sb.cancelled, sb.fclosed, sb.overflowed, sb.late)
+		if s.joined(sb) {
+			b.WriteString(" joined")
+		}
+	}
+	if s.cfg.GetAlls > 0 {
+		fmt.Fprintf(&b, " | getall started=%d running=%v height=%d parked=%v failed=%q ok=%d err=%d",
+			s.ga.started, s.ga.running, s.ga.height, s.ga.pending != nil, s.ga.failed, s.ga.okN, s.ga.errN)
 	}
 	return b.String()
 }
@@ -734,6 +955,7 @@ func (s *vsubSys) Check() error {
 		return s.err
 	}
 	s.snap = s.snapshot()
+	s.snapOverlap = s.overlap()
 	s.enabledSnap = s.enabledNow()
 	return nil
 }
@@ -775,13 +997,13 @@ func (s *vsubSys) probe() {
 				sb.idx, vsubBufCap-1, sb.taken, sb.readN)
 			return
 		}
-		if term && sb.pending == nil && !sb.closed {
+		if term && !s.busy(sb) && !sb.closed {
 			s.failLocked("C20/not-closed/after=%s: subscription %d stream is still open after %s although no retrieval is running (took %d headers, read %d)",
 				sb.cause(s.stopped), sb.idx, sb.cause(s.stopped), sb.taken, sb.readN)
 			return
 		}
 		inflight := 0
-		if sb.pending != nil {
+		if s.busy(sb) {
 			inflight = 1
 		}
 		if !term && sb.readN < sb.taken-inflight {
@@ -794,15 +1016,40 @@ func (s *vsubSys) probe() {
 			return
 		}
 	}
+	if s.ga.running && s.ga.pending == nil && !s.gaJoined() {
+		s.failLocked("C20/getall/hangs: concurrent GetAll(height %d) has not returned although no retrieval of that height and namespace is in flight", s.ga.height)
+	}
+}
+
+// overlap: two callers are retrieving (or joined to a retrieval of) the same height and namespace.
+func (s *vsubSys) overlap() bool {
+	s.mu.Lock()
+	defer s.mu.Unlock()
+	type k struct{ h, ns int }
+	seen := map[k]int{}
+	for _, sb := range s.subs {
+		if s.busy(sb) {
+			seen[k{s.feed[sb.taken-1], s.cfg.nsOf(sb.idx)}]++
+		}
+	}
+	if s.ga.running {
+		seen[k{s.ga.height, 0}]++
+	}
+	for _, n := range seen {
+		if n > 1 {
+			return true
+		}
+	}
+	return false
 }
 
 func (s *vsubSys) outcome(sb *vsubSub) string {
 	switch {
 	case sb.closed:
 		return "closed/" + sb.cause(s.stopped)
-	case sb.pending != nil && sb.terminated(s.stopped):
+	case s.busy(sb) && sb.terminated(s.stopped):
 		return "terminating(retrieval running)/" + sb.cause(s.stopped)
-	case sb.pending != nil:
+	case s.busy(sb):
 		return "open/retrieving"
 	default:
 		return "open/idle"
@@ -842,9 +1089,13 @@ func (s *vsubSys) drain() error {
 		return s.err
 	}
 	s.countOutcomes()
-	limit := 4*(s.total()+2)*len(s.subs) + 8
+	limit := 4*(s.total()+2)*len(s.subs) + 16
 	for it := 0; it < limit; it++ {
 		progress := false
+		if s.ga.pending != nil {
+			_ = s.Apply("gans:ok")
+			progress = true
+		}
 		for i, sb := range s.subs {
 			if s.err != nil {
 				return s.err
@@ -874,6 +1125,9 @@ func (s *vsubSys) drain() error {
 			break
 		}
 	}
+	if s.ga.running {
+		return fmt.Errorf("C20/getall/hangs: concurrent GetAll(height %d) has not returned in the fair continuation", s.ga.height)
+	}
 	for _, sb := range s.subs {
 		if sb.pending != nil {
 			return fmt.Errorf("C20/drain-no-progress: subscription %d still retrieves height %d after %d successful answers", sb.idx, sb.pending.height, limit)
@@ -900,6 +1154,9 @@ func (s *vsubSys) drain() error {
 func (s *vsubSys) countOutcomes() {
 	vsubRunStats.mu.Lock()
 	defer vsubRunStats.mu.Unlock()
+	if s.snapOverlap {
+		vsubRunStats.overlaps.Add(1)
+	}
 	for _, sb := range s.subs {
 		vsubRunStats.outcomes[s.outcome(sb)]++
 		if sb.fclosed && sb.pending != nil && !sb.cancelled && !s.stopped {
@@ -920,9 +1177,20 @@ func (s *vsubSys) Close() {
 	if s.svc != nil && s.svc.cancel != nil {
 		_ = s.svc.Stop(context.Background())
 	}
+	if s.ga.cancel != nil {
+		s.ga.cancel()
+	}
 	for it := 0; it < 64; it++ {
 		synctest.Wait()
 		any := false
+		s.mu.Lock()
+		gc := s.ga.pending
+		s.ga.pending = nil
+		s.mu.Unlock()
+		if gc != nil {
+			any = true
+			gc.ans <- vsubAns{err: context.Canceled}
+		}
 		for _, sb := range s.subs {
 			s.mu.Lock()
 			c := sb.pending
@@ -1046,6 +1314,9 @@ func vsubConfigs(tier string) []vsubCfg {
 			full(vsubCfg{Name: "hdr-getter", Subs: 1, Headers: 3, HdrGetterBlocks: true, Depth: whole}),
 			full(vsubCfg{Name: "two-subs", Subs: 2, Headers: 2, Depth: whole}),
 			{Name: "two-subs-overflow", Subs: 2, Prefill: 15, Headers: 2, Answers: []string{"ok", "fail"}, Cancel: true, Stop: true, Depth: 7},
+			// overlapping retrievals of the same (height, namespace)
+			full(vsubCfg{Name: "same-namespace", Subs: 2, SameNS: true, Headers: 2, Depth: whole}),
+			{Name: "sub-and-getall", Subs: 1, GetAlls: 2, Headers: 2, Answers: []string{"ok", "fail"}, Cancel: true, Stop: true, FClose: true, Depth: whole},
 		}
 	}
 	return []vsubCfg{
@@ -1059,6 +1330,12 @@ func vsubConfigs(tier string) []vsubCfg {
 		full(vsubCfg{Name: "two-subs", Subs: 2, Headers: 3, Depth: whole}),
 		full(vsubCfg{Name: "two-subs-hdr-getter", Subs: 2, Headers: 2, HdrGetterBlocks: true, Depth: whole}),
 		full(vsubCfg{Name: "two-subs-overflow", Subs: 2, Prefill: 15, Headers: 3, Depth: 14}),
+		// overlapping retrievals of the same (height, namespace)
+		full(vsubCfg{Name: "same-namespace", Subs: 2, SameNS: true, Headers: 3, Depth: whole}),
+		full(vsubCfg{Name: "same-namespace-hdr-getter", Subs: 2, SameNS: true, Headers: 2, HdrGetterBlocks: true, Depth: whole}),
+		{Name: "sub-and-getall", Subs: 1, GetAlls: 3, Headers: 3, Answers: []string{"ok", "fail"}, Cancel: true, Stop: true, FClose: true, HdrStop: true, Depth: whole},
+		{Name: "sub-and-getall-hdr-getter", Subs: 1, GetAlls: 2, Headers: 2, HdrGetterBlocks: true, Answers: []string{"ok", "fail"}, Cancel: true, Stop: true, Depth: whole},
+		{Name: "same-namespace-and-getall", Subs: 2, SameNS: true, GetAlls: 1, Headers: 2, Answers: []string{"ok", "fail"}, Cancel: true, Stop: true, Depth: whole},
 	}
 }
 
@@ -1067,7 +1344,7 @@ func TestVerifC20(t *testing.T) {
 	rep := vx.NewReport("C20", "model_checking")
 	rep.Rule = "explicit-state BFS over environment-event histories of the real blob.Service.Subscribe (events per subscription: " +
 		"header handed over by the feed, answer ok/fail/not-found/ctx-error to the pending share-getter (or header-getter) call, consumer reads one response, " +
-		"subscriber cancels, feed closes, header+service-stop at once; global: service stop); a state is distinct and non-trivial when its canonical " +
+		"subscriber cancels, feed closes, header+service-stop at once; global: service stop, start of a concurrent Service.GetAll for the height subscription 0 is retrieving or will retrieve next and answers to its calls); subscriptions on different namespaces and on the SAME namespace (overlapping retrievals of one height and namespace, answered in both orders); a state is distinct and non-trivial when its canonical " +
 		"fingerprint (per subscription: headers taken, responses read, responses buffered, pending call and whether its context is done, cancelled/feed-closed/" +
 		"overflow flags, late-attempt count, stream closed; service stopped) was not seen before. Every distinct state is probed (all buffered responses " +
 		"judged against the reference blobs of the block, stream open/closed judged) and continued by a fair drain (all retrievals succeed, consumer reads at once)"
@@ -1077,6 +1354,8 @@ func TestVerifC20(t *testing.T) {
 		"a retrieval failure is any non-nil error of the share getter or header getter, including errors wrapping shwap.ErrNotFound (block data not found); an absent namespace is reported by getters as empty data without error",
 		"feed close while a retrieval runs is judged leniently: the stream must close once that retrieval has returned (retries are not counted)",
 		"'promptly' = after cancel / service stop at most one further retrieval attempt starts, and the stream is closed in the first quiescent state in which no retrieval is running",
+		"a subscription (or GetAll) that owes a result, has no collaborator call of its own in flight, while another retrieval of the same height and namespace is in flight, is treated as retrieving (an implementation may coalesce identical retrievals); it is judged as soon as that retrieval is answered",
+		"the concurrent GetAll is never answered with the not-found error itself (that is the known finding C20/wrong-blobs/after=getter-not-found-error)",
 		"block layouts are simple (blobs back to back); layout generality is property C11",
 	}
 
@@ -1173,6 +1452,8 @@ func TestVerifC20(t *testing.T) {
 	rep.Set("states_feed_closed_while_retrieving_judged_leniently", vsubRunStats.feedCloseBusy)
 	vsubRunStats.mu.Unlock()
 	rep.Set("positive_control_responses_accepted", vsubRunStats.readsOK.Load())
+	rep.Set("positive_control_concurrent_getall_results_accepted", vsubRunStats.getAllsOK.Load())
+	rep.Set("distinct_states_with_overlapping_retrievals_of_same_height_and_namespace", vsubRunStats.overlaps.Load())
 	rep.Set("positive_control_fair_continuations_completed", vsubRunStats.drainsDone.Load())
 	rep.Set("violating_transitions_by_signature", sigCount)
 	rep.Set("explanation", "per configuration: exhaustive up to depth_bound events after the scripted prefix; frontier_emptied=true means the whole reachable state space of that configuration was covered (no depth cut)")
